@@ -71,6 +71,8 @@ def main():
             if not os.path.exists(meta_p):
                 continue
             meta = json.load(open(meta_p))
+            if meta.get("retired"):
+                continue
             props = a.props.split(",") if a.props else ([meta["breaks"]] if a.target_only else meta["properties"])
             res = run_one(os.path.join(base, name, "patch.diff"), None, props, a.runs, tier=a.tier, budget=a.budget)
             caught = [p for p, r in res.items() if r["rc"] == 1]
